@@ -4,7 +4,7 @@
    with Path.list_of_destinations_from_last_segment and Path.make_copy_with_jump_to,
    variant = ScoreVariant.create_variant_part, id_suffix = update_note_ids_after_unfolding,
    variant_qd = the quarter durations create_variant_part sets. *)
-From PV Require Import Lib.Base Model.C09 Proofs.C09 Proofs.C09_simple Proofs.C09_segs Proofs.C09_variant Proofs.C09_clip Proofs.C09_qd.
+From PV Require Import Lib.Base Model.C09 Model.C09_api Proofs.C09 Proofs.C09_simple Proofs.C09_segs Proofs.C09_variant Proofs.C09_clip Proofs.C09_qd Proofs.C09_nav Proofs.C09_api Proofs.C09_reps.
 From Coq Require Import ZArith List Bool.
 Import ListNotations.
 #[local] Open Scope Z_scope.
@@ -189,3 +189,127 @@ Print Assumptions variant_qd_inforce.
 Theorem qnorm_inforce : forall tbl d t, times_sorted tbl -> qd_at d (qnorm tbl) t = qd_at d tbl t.
 Proof. exact qnorm_inforce_lemma. Qed.
 Print Assumptions qnorm_inforce.
+
+(* ---- navigation marks (FINITE domain, complete enumeration proved complete, kernel-checked):
+   one jump (D.C., or D.S. with its Segno), optionally al Fine or al Coda (To Coda + Coda), at most
+   two disjoint repeats of at most two measures, five measures: for the three policies and both
+   values of ignore_leaps the path search returns exactly the readings the notation permits
+   (nav_reference: straight through, or up to the jump mark, from the destination to the Fine /
+   To Coda / end, then from the Coda; every repeat once or twice, once only after the jump unless
+   leaps are ignored; maximal = all repeats, taking the jump only when written at the very end,
+   minimal = no repeats, taking the jump unless written at the very end), as a sorted list of measure
+   sequences.  nav_clean excludes the arrangements on which partitura deviates: known finding
+   C09-K2 (nav_k2), a repeat ending at the jump mark, a Coda directly at the jump mark followed by
+   repeats ---- *)
+Theorem navigation_unfolding : forall l nr ar ign,
+  nav_domain l -> nav_clean l = true ->
+  let g := make_segments (nav_marks l) in
+  nav_paths_sorted g nr ar ign = Some (lsort (nav_reference l (mode_of nr ar) (ign || nr))).
+Proof. exact navigation_unfolding_lemma. Qed.
+Print Assumptions navigation_unfolding.
+
+(* known finding C09-K2, exact boundary in the model: the textbook D.S. al Coda (Segno 1, To Coda 2,
+   D.S. and Coda 3, no boundary between Segno and To Coda) has NO unfolding under the all-variants
+   and the minimal policy (the jump back to the segno segment is not recognised as a leap; 400
+   segments are beyond the 100 laps after which partitura raises IndexError) *)
+Theorem unfolding_refuted_unrecognised_leap :
+  nav_domain ds_al_coda_textbook /\ nav_k2 ds_al_coda_textbook = true /\
+  forall ar ign fuel, In fuel [64%nat; 400%nat] ->
+    get_paths fuel (make_segments (nav_marks ds_al_coda_textbook)) true ar ign = None /\
+    get_paths fuel (make_segments (nav_marks ds_al_coda_textbook)) false false ign = None.
+Proof. exact ds_al_coda_textbook_refuted_lemma. Qed.
+Print Assumptions unfolding_refuted_unrecognised_leap.
+
+(* ---- the public entry points (Model/C09_api.v) ---- *)
+
+(* unfold_part_maximal on a part with independent simple repeats is the variant along the path
+   playing every repeated section twice; its notes are the per-visit shifted copies *)
+Theorem api_maximal_simple : forall g bs objs ign,
+  simple_table g bs -> bs <> [] -> (length bs <= 31)%nat ->
+  api_maximal g objs ign = part_along g objs (maxsfx 0 bs).
+Proof. exact api_maximal_simple_lemma. Qed.
+Print Assumptions api_maximal_simple.
+
+Theorem api_maximal_notes : forall g bs objs ign vs,
+  simple_table g bs -> bs <> [] -> (length bs <= 31)%nat ->
+  visits_of g (maxsfx 0 bs) = Some vs ->
+  exists all, api_maximal g objs ign = Some all /\
+              notes_of all = map (clip_view (total_len vs)) (expected_notes objs vs 0 0).
+Proof. exact api_maximal_notes_lemma. Qed.
+Print Assumptions api_maximal_notes.
+
+Theorem api_minimal_simple : forall g bs objs,
+  simple_table g bs -> bs <> [] -> (length bs <= 31)%nat ->
+  api_minimal g objs = part_along g objs (minsfx 0 bs).
+Proof. exact api_minimal_simple_lemma. Qed.
+Print Assumptions api_minimal_simple.
+
+Theorem api_minimal_notes : forall g bs objs vs,
+  simple_table g bs -> bs <> [] -> (length bs <= 31)%nat ->
+  visits_of g (minsfx 0 bs) = Some vs ->
+  exists all, api_minimal g objs = Some all /\
+              notes_of all = map (clip_view (total_len vs)) (expected_notes objs vs 0 0).
+Proof. exact api_minimal_notes_lemma. Qed.
+Print Assumptions api_minimal_notes.
+
+(* iter_unfolded_parts / make_score_variants: one part per combination, 2^r of them *)
+Theorem api_iter_simple : forall g bs objs,
+  simple_table g bs -> bs <> [] -> (length bs <= 31)%nat ->
+  exists parts, api_iter g objs = Some parts /\ parts = map (part_along g objs) (sfx 0 bs) /\
+                length parts = Nat.pow 2 (nrep bs).
+Proof. exact api_iter_simple_lemma. Qed.
+Print Assumptions api_iter_simple.
+
+(* a part without repeat structure: every entry point returns the copy of the whole part
+   (whose notes are the original's by identity_notes) *)
+Theorem api_no_structure : forall first last objs ign,
+  first < last ->
+  let g := make_segments (mkMarks first last [] [] [] [] [] [] [] []) in
+  let whole := variant objs [(first, last)] in
+  api_maximal g objs ign = Some whole /\ api_minimal g objs = Some whole /\
+  api_iter g objs = Some [Some whole] /\
+  (forall want, api_alignment g objs want = Some whole).
+Proof. exact api_no_structure_lemma. Qed.
+Print Assumptions api_no_structure.
+
+(* unfold_part_alignment: the part returned is a variant of the all-variants policy whose score
+   (aligned ids covered, number of notes) no other variant beats -- most coverage, then fewest
+   notes -- and the first such variant *)
+Theorem api_alignment_spec : forall g objs want all,
+  api_alignment g objs want = Some all ->
+  exists ps k p,
+    get_paths FUEL g false false true = Some ps /\ nth_error ps k = Some p /\
+    part_along g objs p = Some all /\
+    first_unbeaten (map (fun o => match o with Some a => align_score want a | None => (-1, 0) end)
+                        (map (part_along g objs) ps)) k.
+Proof. exact api_alignment_spec_lemma. Qed.
+Print Assumptions api_alignment_spec.
+
+(* ---- independent simple repeats from the MARKS, unbounded (induction; any number of repeats, any
+   times, adjacent repeats, repeats from the first / up to the last time point, any first time):
+   make_segments yields a simple table with exactly one flagged segment per repeat, that segment
+   being the repeated section ---- *)
+Theorem simple_repeats_table_unbounded : forall first last reps,
+  disjoint_from first last reps -> first < last ->
+  let g := make_segments (mkMarks first last reps [] [] [] [] [] [] []) in
+  let bs := flags_of g in
+  simple_table g bs /\ bs <> [] /\ nrep bs = length reps /\
+  (length g <= 2 * length reps + 1)%nat /\
+  (forall r, In r reps -> exists i s, nth_error g i = Some s /\ nth i bs false = true /\
+                                      s_start s = fst r /\ s_end s = snd r).
+Proof. exact simple_repeats_table_unbounded_lemma. Qed.
+Print Assumptions simple_repeats_table_unbounded.
+
+(* ... hence a part with r independent simple repeats has 2^r distinct variants, the maximal policy
+   plays each repeated section twice and the minimal one once -- for ALL such parts (the fuel bound
+   4r + 3 <= 64 of the evaluated model covers r <= 15) *)
+Theorem simple_repeats_unbounded : forall first last reps ign fuel,
+  disjoint_from first last reps -> first < last -> (4 * length reps + 3 <= fuel)%nat ->
+  let g := make_segments (mkMarks first last reps [] [] [] [] [] [] []) in
+  let bs := flags_of g in
+  nrep bs = length reps /\
+  (exists ps, get_paths fuel g false false ign = Some ps /\ length ps = Nat.pow 2 (length reps) /\ NoDup ps) /\
+  get_paths fuel g false true ign = Some [maxsfx 0 bs] /\
+  get_paths fuel g true false ign = Some [minsfx 0 bs].
+Proof. exact simple_repeats_unbounded_lemma. Qed.
+Print Assumptions simple_repeats_unbounded.
